@@ -418,7 +418,10 @@ func (mr *msgReader) Read(p []byte) (n int, err error) {
 			err = io.EOF
 		}
 	}
-	if errors.Is(err, io.EOF) || errors.Is(err, io.ErrUnexpectedEOF) && mr.fin && mr.flate {
+	// The message has only ended if its final frame has been consumed entirely.
+	// Otherwise an EOF is the transport ending in the middle of the message.
+	eom := mr.fin && mr.payloadLength == 0 && (!mr.flate || mr.flateTail.Len() == 0)
+	if eom && (errors.Is(err, io.EOF) || errors.Is(err, io.ErrUnexpectedEOF) && mr.flate) {
 		mr.putFlateReader()
 		return n, io.EOF
 	}
